@@ -17,7 +17,7 @@ prop("C18",
           "Distinct = SHA-1 of the case descriptor.",
      assumptions=["trusted base: scipy.linalg.eigh_tridiagonal on the commuting tridiagonal matrix (own formulation in "
                   "this module, agrees with scipy.signal.windows.dpss to 2e-15), numpy dense products / eigvalsh of the sinc kernel",
-                  "tolerances: orthonormality 1e-6 (observed 2e-12); ratios in (0,1] and non-increasing up to 1e-9 "
+                  "tolerances: orthonormality 1e-6 (observed 2e-12); ratios in (0,1] (exactly: a fraction of energy; the adaptive multitaper weights have a pole at lambda > 1) and non-increasing up to 1e-9 "
                   "(rounding puts the leading ones at 1+3e-15); ratio vs energy fraction 1e-8 (observed 3e-15); columns vs "
                   "reference eigenvectors 1e-5 absolute (the C routine receives NW as a 32-bit float, observed 6e-8); "
                   "(anti)symmetry 2e-5 = twice the eigenvector tolerance (a taper within 1e-5 of a symmetric reference is symmetric to 2e-5; observed 6e-8 typically, 1.2e-6 at N=3460, NW=6.57, k=13 in a thorough run); kernel residual |A v - lambda v| 1e-5 (observed 4e-8)",
@@ -135,7 +135,7 @@ def _orthonormal(ctx, v, lam, N, NW, k):
 
 
 def _ratios(ctx, v, lam, N, NW, k):
-    ctx.check(np.all(lam > 0) and np.all(lam <= 1 + 1e-9),
+    ctx.check(np.all(lam > 0) and np.all(lam <= 1.0),
               "concentration ratios outside (0,1]: %s (N=%d NW=%r)" % (lam.tolist(), N, NW), sig={"clause": "ratio_range"})
     if k > 1:
         ctx.check(float(np.max(np.diff(lam))) <= 1e-9,
